@@ -40,7 +40,10 @@ func (c *Ctx) ruleBounds() {
 			kind := ""
 			switch x := ins.(type) {
 			case *ssa.IndexAddr:
-				if isRangeIndex(x.Index) || isFullIndexLoopOver(x.Index, x.X) {
+				if over := rangeIndexOver(x.Index); over != nil && sameSliceValue(over, x.X) {
+					return // the element access of `for i := range x`
+				}
+				if isFullIndexLoopOver(x.Index, x.X) {
 					return
 				}
 				if _, isArr := deref(x.X.Type()).Underlying().(*types.Array); isArr {
